@@ -383,6 +383,13 @@ theorem runClauseRef_par (ρ : Sig → Sig → Prop) (hρ : BodyOK ρ) (fuel : N
   simp only
   exact unifyHead_par ρ hρ.faults fuel _ args _ (solve_par ρ hρ q hq _ _ 0) _ K1 K2 hK _
 
+theorem runClauseRefBody_par (ρ : Sig → Sig → Prop) (hρ : BodyOK ρ) (fuel : Nat) (q : Q) (hq : QPar ρ q)
+    (cc : ClauseCode) (body : Body) (args : List Term) : GenPar ρ (runClauseRefBody fuel q cc body args) := by
+  intro K1 K2 hK w
+  unfold runClauseRefBody
+  simp only
+  exact unifyHead_par ρ hρ.faults fuel _ args _ (solve_par ρ hρ q hq _ _ 0) _ K1 K2 hK _
+
 theorem onceGen_par (ρ : Sig → Sig → Prop) (hρ : FaultRefl ρ) (g : Gen) (hg : GenPar (UpF ρ) g) : GenPar ρ (onceGen g) := by
   intro K1 K2 hK w
   unfold onceGen
@@ -545,6 +552,10 @@ theorem allPar (cfg : Cfg) : ∀ f, AllPar cfg f := by
           simp only
           apply leaveFrame_par hρ
           exact runClauses_par (UpB ρ) _ (fun c => runClauseRef_par (UpB ρ) (UpB_ok ρ) f _ hq c args) _ _ _ (wrapK_par hK) w
+        | refbody =>
+          simp only
+          apply leaveFrame_par hρ
+          exact runClauses_par (UpB ρ) _ (fun (x : ClauseCode × Clause) => runClauseRefBody_par (UpB ρ) (UpB_ok ρ) f _ hq x.1 x.2.body args) _ _ _ (wrapK_par hK) w
       | py p => simp only [runDef]; exact runPy_par ρ hρ f _ args _ _ K1 K2 hK w
       | builtin b => simp only [runDef]; exact ihB ρ hρ b args K1 K2 hK w
     · -- runBuiltin
